@@ -319,7 +319,14 @@ class GroupScenario:
                     self.rec("subscribe", i, tuple(resub[1]))
                     resub = None
                 try:
-                    batch = await c.getmany(timeout_ms=300, max_records=p.get("poll_max_records"))
+                    if spec.get("poll") == "getone":
+                        # an application iterating with getone() / async for: blocks until a record arrives or stop() fails the call
+                        msg = await c.getone()
+                        from aiokafka.structs import TopicPartition as _TP
+
+                        batch = {_TP(msg.topic, msg.partition): [msg]}
+                    else:
+                        batch = await c.getmany(timeout_ms=300, max_records=p.get("poll_max_records"))
                 except Exception as e:  # noqa: BLE001
                     self.rec("poll-exc", i, type(e).__name__, str(e)[:80])
                     if i in self.stop_tasks:
@@ -464,6 +471,10 @@ class GroupScenario:
         await asyncio.sleep(p.get("stable", STABLE))
         self.snap2 = self.snapshot()
         self.stop_flag = True
+        for i, spec in enumerate(p["members"]):
+            # a member blocked in getone() never looks at the flag: it is stopped from another task, as applications do
+            if spec.get("poll") == "getone" and i in self.started and i not in self.stopped and i not in self.killed and i not in self.stop_tasks:
+                self.begin_stop(i)
         live = [t for i, t in enumerate(tasks) if i not in self.killed]
         if live:
             await asyncio.wait(live, timeout=p.get("stop_bound", 30.0))
